@@ -426,34 +426,62 @@ Proof. reflexivity. Qed.
 Lemma disjointb_new_only t : disjointb (t, []) = true.
 Proof. apply disjointb_spec, disjoint_new_only. Qed.
 
-Lemma e2s_ok h : forall it seen c si so,
-  R c si -> in_test si = it -> test_tags so = None -> empty (run_tags so) ->
-  wf_from it seen h = true ->
-  Forall2 seteq (sobs_from [] so (trans e2s_step c h)) (sobs_from [] si h)
-  /\ wf_from false false (trans e2s_step c h) = true.
+(* the decorator's own tag context follows the five lines of every other result, whether or not
+   the run has been started: the implicit start keeps _tags *)
+Lemma e2s_ctx_step s op : e_ctx (fst (e2s_step s op)) = istep (e_ctx s) op.
+Proof. destruct op; reflexivity. Qed.
+
+Lemma e2s_ctx_fold h : forall s, e_ctx (fold_left (fun s op => fst (e2s_step s op)) h s) = fold_left istep h (e_ctx s).
+Proof. induction h as [|op r IH]; intro s; simpl; [reflexivity|]. rewrite IH, e2s_ctx_step. reflexivity. Qed.
+
+(* _ensure_started: at most a startTestRun on a target that is outside a test and has no run-level tags *)
+Lemma ensure_started_spec s so : test_tags so = None -> empty (run_tags so) ->
+  exists so', test_tags so' = None /\ empty (run_tags so') /\
+    (forall rest, sobs_from [] so (ensure_started s ++ rest) = sobs_from [] so' rest) /\
+    (forall rest, wf_from false false (ensure_started s ++ rest) = wf_from false false rest).
 Proof.
-  induction h as [|op r IH]; intros it seen c si so HR Hit Hso He Hw; [split; [constructor|reflexivity]|].
+  intros Ht He. unfold ensure_started. destruct (e_started s).
+  - exists so. repeat split; assumption.
+  - exists sp0. repeat split; try apply empty_nil.
+Qed.
+
+Lemma e2s_ok h : forall it seen s si so,
+  R (e_ctx s) si -> in_test si = it -> test_tags so = None -> empty (run_tags so) ->
+  wf_from it seen h = true ->
+  Forall2 seteq (sobs_from [] so (trans e2s_step s h)) (sobs_from [] si h)
+  /\ wf_from false false (trans e2s_step s h) = true.
+Proof.
+  induction h as [|op r IH]; intros it seen s si so HR Hit Hso He Hw; [split; [constructor|reflexivity]|].
   assert (Hn : nn_from (in_test si) (op :: r) = true) by (rewrite Hit; eapply wf_nn; exact Hw).
   apply nn_step in Hn as [Hn1 _].
-  assert (HR' : R (istep c op) (sstep [] si op)) by (apply R_step; assumption).
-  destruct so as [sor sot]. simpl in Hso, He. subst sot.
+  assert (HR' : R (e_ctx (fst (e2s_step s op))) (sstep [] si op))
+    by (rewrite e2s_ctx_step; apply R_step; assumption).
   destruct op as [|ch| | |]; simpl in Hw.
-  - apply andb_true_iff in Hw as [_ Hw]. simpl.
+  - (* explicit startTestRun *)
+    apply andb_true_iff in Hw as [_ Hw]. simpl.
     apply (IH false false); try assumption; try reflexivity. apply empty_nil.
   - apply andb_true_iff in Hw as [_ Hw]. cbn [trans e2s_step app].
     apply (IH it seen); try assumption; try reflexivity. rewrite in_test_sstep. exact Hit.
-  - apply andb_true_iff in Hw as [_ Hw]. cbn [trans e2s_step app].
+  - (* startTest: implicit start *)
+    apply andb_true_iff in Hw as [Hit' Hw]. destruct it; [discriminate|]. cbn [trans e2s_step].
+    destruct (ensure_started_spec s so Hso He) as [so' [Hso' [He' [O1 W1]]]].
+    rewrite O1, W1.
     apply (IH true false); try assumption; reflexivity.
-  - apply andb_true_iff in Hw as [_ Hw]. cbn [trans e2s_step]. rewrite placeholder_block.
+  - (* outcome: implicit start, then the PlaceHolder block *)
+    apply andb_true_iff in Hw as [_ Hw]. cbn [trans e2s_step]. rewrite <- app_assoc.
+    destruct (ensure_started_spec s so Hso He) as [so' [Hso' [He' [O1 W1]]]].
+    rewrite O1, W1. destruct so' as [sor sot]. simpl in Hso', He'. subst sot.
+    rewrite placeholder_block.
     cbn [app wf_from negb andb]. rewrite disjointb_new_only. cbn [andb disjointb fst snd forallb].
-    destruct (IH it it (istep c Outcome) (sstep [] si Outcome)
-                 {| run_tags := apply1 (apply1 sor (ctx_current c, [])) ([], ctx_current c); test_tags := None |})
+    destruct (IH it it {| e_ctx := e_ctx s; e_started := true |} (sstep [] si Outcome)
+                 {| run_tags := apply1 (apply1 sor (ctx_current (e_ctx s), [])) ([], ctx_current (e_ctx s));
+                    test_tags := None |})
       as [IH1 IH2]; try assumption; try reflexivity.
-    + intro x. cbn [run_tags]. rewrite !smem_apply1. simpl. rewrite He. simpl.
-      destruct (smem x (ctx_current c)); reflexivity.
+    + intro x. cbn [run_tags]. rewrite !smem_apply1. simpl. rewrite He'. simpl.
+      destruct (smem x (ctx_current (e_ctx s))); reflexivity.
     + split; [|exact IH2]. cbn [sobs_from sstep]. constructor; [|exact IH1].
       eapply seteq_trans; [|apply R_current; exact HR].
-      intro x. rewrite smem_apply1. simpl. rewrite He. simpl. apply andb_true_r.
+      intro x. rewrite smem_apply1. simpl. rewrite He'. simpl. apply andb_true_r.
   - cbn [trans e2s_step app]. apply (IH false false); try assumption; reflexivity.
 Qed.
 
@@ -519,9 +547,9 @@ Proof.
     destruct (tfr_ok h false false tfr0 sp0 sp0 tfr_inv_init Hw) as [H1 H2].
     eapply F2_seteq_trans; [apply Hl; assumption|exact H1].
   - constructor; [apply own_seen_ok|].
-    eapply Forall2_impl; [|apply (IH (trans e2s_step ctx_root h))].
+    eapply Forall2_impl; [|apply (IH (trans e2s_step e2s0 h))].
     intros clean l Hl Hw Hc.
-    destruct (e2s_ok h false false ctx_root sp0 sp0 R_init eq_refl eq_refl empty_nil Hw) as [H1 H2].
+    destruct (e2s_ok h false false e2s0 sp0 sp0 R_init eq_refl eq_refl empty_nil Hw) as [H1 H2].
     eapply F2_seteq_trans; [apply Hl; assumption|exact H1].
 Qed.
 
